@@ -908,6 +908,7 @@ func scanRangeIdx(c *core.Ctx) []ob {
 					// both pinned to one constant degree before the loop: `Y.Degree() != k -> error` (in the function or in a
 					// predicate of the package that receives Y) and `X.Resize(k, …)`
 					pinned := map[string]string{}
+					built := map[string]bool{} // allocated by the function itself with a constant degree
 					var pin func(body *ast.BlockStmt, sub map[string]string, limit token.Pos, depth int)
 					pin = func(body *ast.BlockStmt, sub map[string]string, limit token.Pos, depth int) {
 						name := func(e ast.Expr) string {
@@ -923,6 +924,17 @@ func scanRangeIdx(c *core.Ctx) []ob {
 							}
 							switch v := z.(type) {
 							case *ast.AssignStmt:
+								// allocated with a literal degree: `ctTmp := NewCiphertext(params, 1, level)`
+								if len(v.Lhs) >= 1 && len(v.Rhs) == 1 {
+									if call, ok := unparen(v.Rhs[0]).(*ast.CallExpr); ok && len(call.Args) >= 2 {
+										if nm := calleeName(info, call); nm == "NewCiphertext" || nm == "NewPlaintext" || nm == "NewElement" {
+											if lit, ok := unparen(call.Args[1]).(*ast.BasicLit); ok && lit.Kind == token.INT {
+												pinned[name(v.Lhs[0])] = lit.Value
+												built[name(v.Lhs[0])] = true
+											}
+										}
+									}
+								}
 								// built from a literal list of k polynomials: degree k-1
 								if len(v.Lhs) >= 1 && len(v.Rhs) == 1 {
 									ast.Inspect(v.Rhs[0], func(w ast.Node) bool {
@@ -1006,6 +1018,10 @@ func scanRangeIdx(c *core.Ctx) []ob {
 					pin(fd.Body, nil, rs.Pos(), 0)
 					if kx, ok := pinned[X]; ok && pinned[Y] == kx {
 						related = "both pinned to degree " + kx + " before the loop"
+					} else if ok && built[X] {
+						// a scratch element the function allocated itself with a constant degree k: the loop is the written-out
+						// accesses Y.Value[0..k], which RESIZEFIRST and INDEG judge like any constant index
+						related = "the ranged element is a scratch of constant degree " + kx + " allocated by the function"
 					}
 				}
 				props := metaProps(fkey)
